@@ -16,7 +16,7 @@ use hydro_lang::sim::{SimReceiver, SimSender};
 pub const META: PropMeta = PropMeta {
     id: "C37",
     quick_runs: 100_000,
-    thorough_runs: 10_000_000,
+    thorough_runs: 40_000_000,
     rule: "end to end: seven small programs whose outcome (sequence of per-tick records) identifies the schedule — batch of a total stream, of an unordered stream, of a keyed stream; batch+snapshot in one tick; two dependent ticks ready at once (slice B snapshots a count of slice A's output); a top-level assume_ordering observation feeding a tick; the same with the tick's output cycled back into the observation's pool (the only place where tick-versus-observation order is observable). CompiledSim::exhaustive is run once per program and its outcome set S collected; each run then draws one legal outcome from an independent reference model of the decision space (any prefix / any subset / any snapshot version >= the last / any order of ready ticks and observations; every tick releases something new) and tests membership in S. Distinct = distinct (program, sampled outcome); non-trivial = the sampled outcome has more than one tick/observation.",
     time_unit: "reference ticks/observations sampled",
     real: &[
